@@ -18,6 +18,7 @@ import ClairModel.Proofs.IndexerHist
 import ClairModel.Proofs.ScanPar
 import ClairModel.Proofs.IndexerExt
 import ClairModel.Proofs.RunClock
+import ClairModel.Proofs.ScanSched
 import ClairModel.Gen.Controller
 
 -- every variable of a property statement is bound explicitly: a misspelt name is an error, not a new variable
@@ -87,6 +88,21 @@ theorem scan_interleavings_keep_invariant (sem : Sem) (st : Store) (hi : Inv sem
     (ps : List (Layer × Scanner)) (ops : List ScanPar.POp) :
     Inv sem (Sm.run (ScanPar.step sem) (ScanPar.spawn st ps) ops).st :=
   (ScanPar.pinv_run sem ops _ (ScanPar.pinv_spawn sem st ps hi)).inv
+
+/-- The same for the whole of `LayerScanner.Scan` as the code runs it
+    (Model/ScanSched: the main loop with its per-layer context check, digest
+    de-duplication and `SetLimit`, closures that first look at the group's
+    context, errgroup cancellation after the first error, calls failing once the
+    group or the caller is cancelled), under any schedule of its participants,
+    any concurrency limit, any fault of any call: the store invariant is kept
+    and no record is removed. This machine is the one the harness drives the
+    real goroutines through (hook points `layerscanner.*`), step by step. -/
+theorem scan_schedules_keep_invariant (sem : Sem) (run : List Scanner) (limit : Nat) (w : W) (m : Manifest)
+    (hi : Inv sem w.st) (sched : List ScanSched.Grant) :
+    Inv sem (ScanSched.runSched sem run limit (ScanSched.init w m) sched).w.st ∧
+    Le w.st (ScanSched.runSched sem run limit (ScanSched.init w m) sched).w.st :=
+  let h := ScanSched.runSched_spec sem run limit sched (ScanSched.init w m) (ScanSched.init_sinv hi m)
+  ⟨h.1.inv, h.2⟩
 
 /-! ## The reporting half -/
 
